@@ -165,9 +165,9 @@ def _verify_pwl_calibration(
 ):
   """Validates calibration arguments."""
   # Validate keypoint input_min and input_max.
-  if keypoint_input_min > keypoint_input_max:
+  if keypoint_input_min >= keypoint_input_max:
     raise ValueError(
-        f"keypoint_input_min = {keypoint_input_min} > keypoint_input_max ="
+        f"keypoint_input_min = {keypoint_input_min} >= keypoint_input_max ="
         f" {keypoint_input_max}."
     )
 
